@@ -108,3 +108,7 @@ Fixpoint units_eqb (a b : list (list (Z * str))) : bool :=
 
 Definition corr_pipeline (c : Z * str * list str * list (list placement) * list (list (Z * str))) : bool :=
   let '(fmt, base, names, units, got) := c in units_eqb (pipeline fmt base names units) got.
+
+(* PDF content type: (filter chain as written, implementation's content type) against the table of the live module *)
+Definition corr_pdf_ctype (tbl : list (str * str)) (c : list str * str) : bool :=
+  str_eqb (pdf_content_type tbl (fst c)) (snd c).
